@@ -125,3 +125,15 @@ Definition store_ts_plan (x : sx) : sx :=
   | PErr ETxNotAvailable => SL [sxN 2; sxN 0]
   | PErr _ => SL [sxN 9; sxN 0]
   end.
+
+(** spec oracle (C15 hypothesis) on a listing produced by the real code on the
+    real clock: input [pos; listing; record] with record = [[k; replication
+    time of TXID k] ...]; output 1 iff every file (snapshots included) is
+    stamped no earlier than the replication time of its newest transaction, L0
+    files exactly at it, the record is monotone, and — when all L0 files are
+    present — [ts_hyp_ok], the hypothesis of [ts_exact_for_listing], holds *)
+Definition store_ts_hyp_ok (x : sx) : sx :=
+  let pos := asN (nthx 0 x) in
+  let r := replica_of_sx (nthx 1 x) in
+  let rec := map (fun p => (asN (nthx 0 p), asN (nthx 1 p))) (asL (nthx 2 x)) in
+  sxB (ts_hyp_real_ok pos rec r).
